@@ -52,3 +52,4 @@ CFG['level_text'] += " Round trips also give a co-signer, or a signature already
 CFG['level_text'] += ' A third of all messages are opened twice with the same verifier objects and must end the same way; every slice handed to VerifierList is overwritten with a decoy verifier afterwards.'
 CFG['level_text'] += ' A Sign call that succeeds with a signer or carried signature whose name is empty, contains a Unicode space or a plus, or is not UTF-8 is a violation (names with leading spaces are among those tried).'
 CFG['level_text'] += ' The key checks present, under a signature the same verifier has just accepted, another text of the same length and the same CRC-32.'
+CFG['level_text'] += ' The key pool has names with runes whose low byte is the space or the plus sign and a letter whose UTF-8 form ends in the byte 0xA0.'
